@@ -1014,6 +1014,10 @@ class TunnelCommunity(Community):
             e2e_data = circuit.ctype in [CIRCUIT_TYPE_RP_DOWNLOADER, CIRCUIT_TYPE_RP_SEEDER]
             if DataChecker.could_be_ipv8(data) and not e2e_data:
                 if self._prefix == data[:22]:
+                    if data[22] == DataPayload.msg_id:
+                        # The origin is chosen by the sender: never let it stand in for the address a cell came from.
+                        self.logger.warning("Dropping data packet nested in a data packet from circuit %d", circuit_id)
+                        return
                     self.logger.debug("Incoming packet meant for us")
                     self.on_packet_from_circuit(origin, data, circuit_id)
                     return
